@@ -1,7 +1,7 @@
 //! Thick line join.
 
 use crate::{
-    geometry::{Point, PointExt},
+    geometry::Point,
     primitives::{
         common::{LineSide, LinearEquation, StrokeOffset},
         line::intersection_params::{Intersection, IntersectionParams},
